@@ -1,6 +1,9 @@
 import M3d.Basic
 import M3d.Model.Surface
 import M3d.Model.MeshOps
+import M3d.Model.BlurIter
+import M3d.Model.DeformTargets
+import M3d.Model.ArapOp
 /-!
 Line-protocol handler for C10.  Core-only.
 
@@ -108,15 +111,17 @@ def lt2 (a b : P2) : Bool := a.x < b.x || (a.x == b.x && a.y < b.y)
 abbrev CTri := P3 × P3 × P3
 abbrev CSeg := P2 × P2
 
-/-- Rotate so that the smallest corner comes first (orientation kept). -/
-def canonTri (t : CTri) : CTri :=
-  let (a, b, c) := t
-  if (lt3 b a) && !(lt3 c b) then (b, c, a)
-  else if (lt3 c a) && (lt3 c b) then (c, a, b)
-  else (a, b, c)
-
 def ltTri (s t : CTri) : Bool :=
   lt3 s.1 t.1 || (s.1 == t.1 && (lt3 s.2.1 t.2.1 || (s.2.1 == t.2.1 && lt3 s.2.2 t.2.2)))
+
+/-- The lexicographically smallest of the three rotations (orientation kept; well defined also
+for triangles with coinciding corners). -/
+def canonTri (t : CTri) : CTri :=
+  let (a, b, c) := t
+  let r1 : CTri := (b, c, a)
+  let r2 : CTri := (c, a, b)
+  let m := if ltTri r1 t then r1 else t
+  if ltTri r2 m then r2 else m
 
 def ltSeg (s t : CSeg) : Bool := lt2 s.1 t.1 || (s.1 == t.1 && lt2 s.2 t.2)
 
@@ -155,15 +160,100 @@ def loopModel (cs : Array (Option P3)) (ts : List Tri) : List CTri :=
     let m1 := edge a b; let m2 := edge b c; let m3 := edge c a
     [(m1, m2, m3), (c1, m1, m3), (m1, c2, m2), (m3, m2, c3)]
 
-def blurModel (rate : Rat) (cs : Array (Option P3)) (ts : List Tri) : List CTri :=
-  let pt := fun v =>
-    let ns := (nbrs3 ts v).map (at3 cs)
-    if rate == -1 then blurPointMean (at3 cs v) ns else blurPoint rate (at3 cs v) ns
+/-- Re-index a coordinate mesh: ids = positions in the list of distinct points. -/
+def reindex3 (ts : List CTri) : Array (Option P3) × List Tri :=
+  let pts := (ts.flatMap fun t => [t.1, t.2.1, t.2.2]).eraseDups
+  (pts.toArray.map some, ts.map fun t => (pts.idxOf t.1, pts.idxOf t.2.1, pts.idxOf t.2.2))
+
+/-- `LoopSubdivision(m, iters)`: `loopSubdivision` applied `iters` times, each time on the mesh the
+previous iteration returned (vertices = distinct points). -/
+def loopIter : Nat → List CTri → List CTri
+  | 0, ts => ts
+  | n + 1, ts => let (cs, ids) := reindex3 ts; loopIter n (loopModel cs ids)
+
+/-- `Blur(rates...)` / `BlurFiltered(f, rates...)` on a coordinate mesh: the vertices are indexed
+(position in `verts ts`), `nb v` are the neighbours of vertex id `v`, and `M3d.MeshOps.blurRates`
+(`M3d.C10.blur_rates_are_successive_iterations`) runs one iteration per rate in exact arithmetic. -/
+def blurRatesModel (rates : List Rat) (nb : Nat → List Nat) (cs : Array (Option P3)) (ts : List Tri) : List CTri :=
+  let vs := verts ts
+  let idx := fun v => vs.idxOf v
+  let table := vs.map fun v => (nb v).map idx
+  let res := blurRates (fun i => table.getD i []) z3 rates (vs.map (at3 cs))
+  let pt := fun v => res.getD (idx v) z3
   ts.map fun (a, b, c) => (pt a, pt b, pt c)
+
+/-- The rates of a `geom r1 r2 …` parameter list. -/
+def ratesOf (ps : List String) : List Rat := ((ps.drop 1).takeWhile fun s => (parseRat s).isSome).filterMap parseRat
+
+/-- `v>a,b,c` tokens: explicit neighbour lists (BlurFiltered) or `k>t` constraint pairs (ARAP). -/
+def parseArrow (s : String) : Option (Nat × List Nat) :=
+  match s.splitOn ">" with
+  | [v, rest] => do
+    let v ← v.toNat?
+    let xs ← (if rest = "" then some [] else (rest.splitOn ",").mapM (·.toNat?))
+    some (v, xs)
+  | _ => none
+
+def arrows (ps : List String) : List (Nat × List Nat) := ps.filterMap parseArrow
+
+/-! ### `arapop3`: the real `newARAPOperator` / `Update` / `Squeeze` / `Unsqueeze` against `M3d.ArapOp` -/
+
+def tagged (tag : String) (ps : List String) : List String :=
+  ps.filterMap fun s => match s.splitOn ":" with
+    | [t, r] => if t == tag then some r else none
+    | _ => none
+
+def natList (s : String) : Option (List Nat) :=
+  if s == "" then some [] else (s.splitOn ",").mapM (·.toNat?)
+
+def optNatList (s : String) : Option (List (Option Nat)) :=
+  if s == "" then some [] else (s.splitOn ",").mapM fun t => if t == "-1" then some none else t.toNat?.map some
+
+def consList (s : String) : Option (List (Nat × Nat)) :=
+  if s == "" then some [] else (s.splitOn ",").mapM fun t => match t.splitOn "=" with
+    | [i, v] => do some ((← i.toNat?), (← v.toNat?))
+    | _ => none
+
+def keyVal (key : String) (ps : List String) : Option Nat :=
+  ps.findSome? fun s => match s.splitOn "=" with
+    | [k, v] => if k == key then v.toNat? else none
+    | _ => none
+
+/-- Runs the model of `SeqDeformer`'s operator (`seqOp update`) over the frames and compares, per
+frame, the index maps and `Unsqueeze(Squeeze(x))` with what the real code produced; by
+`M3d.C10.arap_update_is_fresh_operator` the maps are those of a fresh `newARAPOperator`, by
+`arap_seq_deformer_meets_constraints` every constrained index carries its target. -/
+def arapOpCheck (n z : Nat) (x : List Nat) :
+    Option (ArapOp.Op Nat) → List (List (Nat × Nat) × List (Option Nat) × List Nat × List Nat) → Bool × Bool × Bool
+  | _, [] => (true, true, true)
+  | prev, (cons, m, s, u) :: rest =>
+    let op := ArapOp.seqOp ArapOp.update n prev cons
+    let fresh := ArapOp.newOp n cons
+    let maps := op.f2s == m && op.s2f == s && fresh.f2s == m && fresh.s2f == s
+    let uns := ArapOp.unsqueeze op z (ArapOp.squeeze op z x) == u
+    let met := cons.all fun kv => kv.1 < n && u[kv.1]? == some kv.2
+    let r := arapOpCheck n z x (some op) rest
+    (maps && r.1, uns && r.2.1, met && r.2.2)
+
+def handleArapOp (l : Line) : Option String := do
+  if l.status ≠ "ok" then
+    return (if l.status = "timeout" then "FAIL terminates=0" else "FAIL no-panic=0")
+  let n ← keyVal "n" l.params
+  let z ← keyVal "z" l.params
+  let x ← natList (← (tagged "x" l.params).head?)
+  let cs ← (tagged "c" l.params).mapM consList
+  let ms ← (tagged "m" l.params).mapM optNatList
+  let ss ← (tagged "s" l.params).mapM natList
+  let us ← (tagged "u" l.params).mapM natList
+  if cs.length ≠ ms.length || cs.length ≠ ss.length || cs.length ≠ us.length || x.length ≠ n then none
+  let frames := (cs.zip (ms.zip (ss.zip us)))
+  let r := arapOpCheck n z x none frames
+  some (verdict [("index-maps", r.1), ("unsqueeze", r.2.1), ("constraints-in-unsqueeze", r.2.2)])
 
 /-! ### 3-D kinds -/
 
 def handle3 (l : Line) : Option String := do
+  if l.kind == "arapop3" then return (← handleArapOp l)
   let inp ← l.inp.mapM parseTri
   if l.status ≠ "ok" then
     return (if l.status = "timeout" then "FAIL terminates=0" else "FAIL no-panic=0")
@@ -194,11 +284,15 @@ def handle3 (l : Line) : Option String := do
       ("verts=V+(n-1)E+F(n-1)(n-2)/2", vout.length == vin.length + (n - 1) * e + inp.length * ((n - 1) * (n - 2) / 2)),
       ("old-vertices-kept", subset vin vout)] ++ geom))
   | "loop3" =>
-    let geom := if hasGeom then [("loop-masks", sameTris (loopModel cs inp) (toC3 cs out))] else []
+    let it := (keyVal "iters" l.params).getD 1
+    let geom := if hasGeom then [("loop-masks", sameTris (loopIter it (toC3 cs inp)) (toC3 cs out))] else []
+    -- (V, E, F) ↦ (V + E, 2E + 3F, 4F) per iteration
+    let cnt := (List.range it).foldl (fun (c : Nat × Nat × Nat) _ => (c.1 + c.2.1, 2 * c.2.1 + 3 * c.2.2, 4 * c.2.2))
+      (vin.length, numE inp, inp.length)
     if hasGeom && l.params.contains "noninj" then
       -- the published masks (verified exactly) map two new vertices to the same point on this input
-      return verdict ([("claimed-noninjective", decide (vout.length < vin.length + numE inp))] ++ geom)
-    some (verdict (base ++ [("faces=4F", out.length == 4 * inp.length), ("verts=V+E", vout.length == vin.length + numE inp)] ++ geom))
+      return verdict ([("claimed-noninjective", decide (vout.length < cnt.1))] ++ geom)
+    some (verdict (base ++ [("faces=4^k·F", out.length == cnt.2.2), ("verts=V+E(per iteration)", vout.length == cnt.1)] ++ geom))
   | "subdivider3" =>
     let k ← (← l.params.head?).toNat?
     if l.params.contains "noninj" then
@@ -206,16 +300,29 @@ def handle3 (l : Line) : Option String := do
       return verdict [("claimed-noninjective", decide (vout.length < vin.length + k))]
     some (verdict (base ++ [("faces=F+2L", out.length == inp.length + 2 * k), ("verts=V+L", vout.length == vin.length + k),
       ("old-vertices-kept", subset vin vout)]))
-  | "blur3" =>
-    let geom ← if hasGeom then do
-        let rate ← parseRat (← l.params[1]?)
-        pure [("blur-rule", sameTris (blurModel rate cs inp) (toC3 cs out))]
-      else pure []
+  | "blur3" | "blurf3" =>
+    let nb : Nat → List Nat :=
+      if l.kind == "blur3" then nbrs3 inp
+      else
+        let tab := arrows l.params
+        fun v => ((tab.find? fun e => e.1 == v).map (·.2)).getD []
+    let geom := if hasGeom then
+        [("blur-rule", sameTris (blurRatesModel (ratesOf l.params) nb cs inp) (toC3 cs out))]
+      else []
     if l.params.contains "noninj" then
       -- hypothesis of relabel_preserves (injective vertex map) fails on this input
       return verdict ([("claimed-noninjective", decide (vout.length < vin.length))] ++ geom)
     some (verdict (base ++ [("same-faces", out.length == inp.length), ("same-vertex-count", vout.length == vin.length)] ++ geom))
-  | "smooth3" | "arap3" | "flatten3" =>
+  | "arap3" =>
+    -- constraints `k>t`: vertex id ↦ id of the target coordinate
+    -- (`M3d.C10.arap_constraints_visible_in_output`: necessary for ANY vertex map meeting them)
+    let cons := (arrows l.params).filterMap fun e => match e.2 with | [t] => some (e.1, t) | _ => none
+    let vis := [("constraint-targets-visible", targetsVisible cons inp out)]
+    if l.params.contains "noninj" then
+      return verdict ([("claimed-noninjective", decide (vout.length < vin.length))] ++ vis)
+    some (verdict (base ++ [("same-faces", out.length == inp.length), ("same-vertex-count", vout.length == vin.length)] ++
+      vis ++ [("constraint-stars", starsAgree cons inp out)]))
+  | "smooth3" | "flatten3" =>
     if l.params.contains "noninj" then
       return verdict [("claimed-noninjective", decide (vout.length < vin.length))]
     some (verdict (base ++ [("same-faces", out.length == inp.length), ("same-vertex-count", vout.length == vin.length)]))
